@@ -40,11 +40,30 @@ const nStores = 5
 type switchPD struct {
 	pd.Client
 	cluster *mocktikv.Cluster
+	calls   int // region queries answered (GetRegion, GetPrevRegion, GetRegionByID, ScanRegions, BatchScanRegions)
+}
+
+func (s *switchPD) GetRegion(ctx context.Context, key []byte, opts ...opt.GetRegionOption) (*router.Region, error) {
+	s.calls++
+	return s.Client.GetRegion(ctx, key, opts...)
+}
+func (s *switchPD) GetPrevRegion(ctx context.Context, key []byte, opts ...opt.GetRegionOption) (*router.Region, error) {
+	s.calls++
+	return s.Client.GetPrevRegion(ctx, key, opts...)
+}
+func (s *switchPD) GetRegionByID(ctx context.Context, id uint64, opts ...opt.GetRegionOption) (*router.Region, error) {
+	s.calls++
+	return s.Client.GetRegionByID(ctx, id, opts...)
+}
+func (s *switchPD) ScanRegions(ctx context.Context, a, b []byte, limit int, opts ...opt.GetRegionOption) ([]*router.Region, error) {
+	s.calls++
+	return s.Client.ScanRegions(ctx, a, b, limit, opts...)
 }
 
 func (s *switchPD) WithCallerComponent(caller.Component) pd.Client { return s }
 
 func (s *switchPD) BatchScanRegions(ctx context.Context, ranges []router.KeyRange, limit int, opts ...opt.GetRegionOption) ([]*router.Region, error) {
+	s.calls++
 	var out []*router.Region
 	for _, kr := range ranges {
 		for _, r := range s.cluster.ScanRegions(kr.StartKey, kr.EndKey, 0, opts...) {
@@ -640,6 +659,84 @@ func (w *world) exec(line string) string {
 				out = append(out, strconv.FormatUint(id, 10))
 			}
 			return verdict(regress()) + " " + strings.Join(out, " ")
+		case f[0] == "conv" && len(f) == 3:
+			k, ok := vx.UnHex(f[1])
+			if !ok || (f[2] != "inval" && f[2] != "reload" && f[2] != "epochnm") {
+				return "bad-op"
+			}
+			// the stores' truth and PD are the LIVE cluster for the whole op
+			savedCluster := w.spd.cluster
+			w.setView(w.live)
+			defer w.setView(savedCluster)
+			live := pdState(w.live)
+			var cur region
+			for _, r := range live {
+				if contains(r.start, r.end, k) {
+					cur = r
+				}
+			}
+			failed, accepted := 0, false
+			for i := 0; i < 3 && !accepted; i++ {
+				l, err := w.cache.LocateKey(w.bo(), k)
+				if err != nil {
+					failed++
+					continue
+				}
+				x := mkLoc(l)
+				if x.key() == cur.key() {
+					accepted = true
+					break
+				}
+				switch f[2] {
+				case "inval":
+					w.cache.InvalidateCachedRegion(l.Region)
+				case "reload":
+					w.cache.VerifSetNeedReload(l.Region)
+				default:
+					var metas []*metapb.Region
+					for _, r := range live {
+						if (len(x.end) == 0 || bytes.Compare(r.start, x.end) < 0) && (len(r.end) == 0 || bytes.Compare(x.start, r.end) < 0) {
+							m := &metapb.Region{Id: r.id, StartKey: r.start, EndKey: r.end,
+								RegionEpoch: &metapb.RegionEpoch{ConfVer: r.conf, Version: r.ver}}
+							for _, s := range r.peers {
+								m.Peers = append(m.Peers, &metapb.Peer{Id: peerID(r.id, s), StoreId: s})
+							}
+							metas = append(metas, m)
+						}
+					}
+					w.cache.VerifEpochNotMatch(w.bo(), l.Region, metas)
+				}
+				failed++
+			}
+			if !accepted {
+				return "FAIL not-converged"
+			}
+			calls := w.spd.calls
+			l2, err := w.cache.LocateKey(w.bo(), k)
+			settled := err == nil && mkLoc(l2).key() == cur.key() && w.spd.calls == calls
+			return verdict(check{settled, "not-settled"}, check{failed <= 1, "too-many-attempts"}, regress()) + fmt.Sprintf(" %d", failed)
+		case f[0] == "expire" && len(f) == 2:
+			id, ok := num(f[1])
+			if !ok {
+				return "bad-op"
+			}
+			v, ok := w.cache.VerifLatest(id)
+			if !ok {
+				return "none"
+			}
+			w.cache.VerifExpire(v)
+			return "ok"
+		case f[0] == "sendfail" && len(f) == 3:
+			id, ok := num(f[1])
+			if !ok {
+				return "bad-op"
+			}
+			v, ok := w.cache.VerifLatest(id)
+			if !ok {
+				return "none"
+			}
+			w.cache.VerifSendFail(w.bo(), v, f[2] == "1")
+			return "ok"
 		case (f[0] == "inval" || f[0] == "needreload") && len(f) == 2:
 			id, ok := num(f[1])
 			if !ok {
@@ -846,7 +943,9 @@ func (g *gen) ranges() string {
 }
 
 func (g *gen) lookupOp() {
-	switch x := g.r.Intn(100); {
+	switch x := g.r.Intn(108); {
+	case x >= 100:
+		g.do("conv " + vx.Hex(g.key()) + " " + []string{"inval", "reload", "epochnm"}[g.r.Intn(3)])
 	case x < 22:
 		g.do("loc " + vx.Hex(g.key()))
 	case x < 34:
@@ -899,7 +998,13 @@ func (g *gen) cacheOp() {
 	if g.r.Chance(20) {
 		id = uint64(1 + g.r.Intn(int(g.nextID)))
 	}
-	switch x := g.r.Intn(100); {
+	switch x := g.r.Intn(120); {
+	case x >= 100 && x < 107:
+		g.do(fmt.Sprintf("expire %d", id))
+	case x >= 107 && x < 112:
+		g.do(fmt.Sprintf("expire %d", id))
+	case x >= 112:
+		g.do(fmt.Sprintf("sendfail %d %d", id, g.r.Intn(2)))
 	case x < 35:
 		g.do(fmt.Sprintf("inval %d", id))
 	case x < 55:
@@ -1023,6 +1128,22 @@ func (g *gen) holeScenario() {
 	g.do("pdview live")
 }
 
+// hugeBatch: more request ranges than one PD request takes (16 * defaultRegionsPerBatch), so step 2 of
+// BatchLocateKeyRanges sends a prefix of the uncached ranges per round and rangesAfterKey carries the rest over.
+func (g *gen) hugeBatch() {
+	n := 2100 + g.r.Intn(500)
+	var rs []string
+	for i := 0; i < n; i++ {
+		a, b := byte(0x61+i/100), byte(i%100)
+		rs = append(rs, vx.Hex([]byte{a, b})+":"+vx.Hex([]byte{a, b, 0x80}))
+	}
+	if g.r.Bool() {
+		rs[len(rs)-1] = rs[len(rs)-1][:4] + ":-"
+	}
+	g.do("batch " + strings.Join(rs, " "))
+	g.do("dump")
+}
+
 func (g *gen) oneCase(n int, nops int) {
 	g.run.Comment(fmt.Sprintf("case %d", n))
 	g.w = newWorld(g.w)
@@ -1068,6 +1189,13 @@ func (g *gen) oneCase(n int, nops int) {
 				g.do("loc " + vx.Hex(r.start))
 			}
 		}
+	}
+	if n%150 == 7 {
+		g.run.Count("family:huge-batch")
+		if g.r.Bool() {
+			g.do("loc " + vx.Hex(g.key())) // a partially warm cache
+		}
+		g.hugeBatch()
 	}
 	for i := 0; i < nops; i++ {
 		switch x := g.r.Intn(100); {
